@@ -55,5 +55,5 @@ func ValidatePort(portStr string) (string, error) {
 	if host == "" {
 		return ":" + port, nil
 	}
-	return host + ":" + port, nil
+	return net.JoinHostPort(host, port), nil
 }
